@@ -160,7 +160,7 @@ static void add_protocol(const std::string &name, const std::string &seedname, c
 	if ((heavy && heavy_mode == "skip") || (!heavy && heavy_mode == "only"))
 		return;
 	wire::Duplex d;
-	d.sh.wait_limit = 60.0;
+	d.sh.wait_limit = 900.0;
 	mcenv::CoinSource csA(SEED, 98), csB(SEED, 99);
 	wire::Outcome o = wire::run2(d, [&](std::iostream &s) { return prover(s, s); }, [&](std::iostream &s) { return verifier(s, s); }, SEED, &csA, &csB);
 	if (!o.b_ok || o.timeout || o.a_threw || o.b_threw)
